@@ -96,6 +96,7 @@ for _p in ["C01", "C04", "C08", "C09", "C10", "C12", "C15"]:
         "trusted_base": TB_ENUM,
         "assumptions": [],
     }
+PROPS["C01"]["props"] = ["Props/C01a.v"]
 PROPS["C04"]["props"] = ["Props/C04.v"]
 PROPS["C08"]["props"] = ["Props/C08.v"]
 PROPS["C12"]["props"] = ["Props/C12.v"]
